@@ -439,6 +439,14 @@ func c06Combiners(c *Ctx, p *Prog) {
 			}
 			clo := mc.Fn.(*ssa.Function)
 			closures[opNames[k]] = clo
+			// a method value (subs[0].negated): the closure is the compiler's bound-method wrapper, the logic is the method
+			if clo.Synthetic != "" {
+				if mo, ok := clo.Object().(*types.Func); ok {
+					if m := p.SSA.FuncValue(mo); m != nil && m.Blocks != nil {
+						closures[opNames[k]] = m
+					}
+				}
+			}
 			// one closure may serve several operators through captured values computed from the operator
 			// (decisive := op == OpOr): those are answered per operator
 			known := map[string]bool{}
@@ -465,7 +473,9 @@ func c06Combiners(c *Ctx, p *Prog) {
 					}
 					if kc != nil && kc.Value != nil {
 						eq := constKey(kc.Value) == k
-						known[clo.FreeVars[i].Name()] = eq == (bo.Op == token.EQL)
+						if i < len(clo.FreeVars) {
+							known[clo.FreeVars[i].Name()] = eq == (bo.Op == token.EQL)
+						}
 					}
 				}
 			}
